@@ -384,14 +384,14 @@ def parse_inputs(tname):
     for n in int_domain():
         out.append(("int-text", str(n), n if tname == "INTEGER" else (float(n) if tname == "FLOAT" else NOEXP)))
         if tname == "INTEGER":
-            out.append(("int", n, n))
+            out.append(("int", n, NOEXP))  # Python values: only the result type is demanded (the statement speaks of text forms)
     for x in float_domain():
         out.append(("float-text", repr(x), x if tname == "FLOAT" else NOEXP))
         if tname == "FLOAT":
-            out.append(("float", x, x))
+            out.append(("float", x, NOEXP))
     for b in (True, False):
         out.append(("bool-text", "true" if b else "false", b if tname == "BOOLEAN" else NOEXP))
-        out.append(("bool", b, b if tname == "BOOLEAN" else NOEXP))
+        out.append(("bool", b, NOEXP))
     return out
 
 
